@@ -572,6 +572,18 @@ def select__exists(self: XPathFunction, context: ta.ContextType = None) \
         yield value is not None and value != []
 
 
+def numeric_equal_promoted(a: NumericType, b: NumericType) -> bool:
+    """op:numeric-equal on two numbers after type promotion (xs:double wins)."""
+    if isinstance(a, float) or isinstance(b, float):
+        def double(x: NumericType) -> float:
+            try:
+                return float(x)
+            except OverflowError:
+                return math.inf if x > 0 else -math.inf
+        return double(a) == double(b)
+    return bool(a == b)
+
+
 @method(function('distinct-values', nargs=(1, 2),
                  sequence_types=('xs:anyAtomicType*', 'xs:string', 'xs:anyAtomicType*')))
 def select__distinct_values(self: XPathFunction, context: ta.ContextType = None)\
@@ -587,12 +599,12 @@ def select__distinct_values(self: XPathFunction, context: ta.ContextType = None)
             # xs:untypedAtomic values are compared as xs:string values
             key = value.value if isinstance(value, UntypedAtomic) else value
 
-            if isinstance(key, (float, Decimal)):
-                if math.isnan(key):
+            if isinstance(key, (int, float, Decimal)) and not isinstance(key, bool):
+                if not isinstance(key, int) and math.isnan(key):
                     if not nan:
                         yield value
                         nan = True
-                elif all(not math.isclose(key, x, rel_tol=1E-18, abs_tol=0)
+                elif all(not numeric_equal_promoted(key, x)
                          for x in results
                          if isinstance(x, (int, Decimal, float)) and not isinstance(x, bool)):
                     yield value
@@ -657,7 +669,13 @@ def select__index_of(self: XPathFunction, context: ta.ContextType = None) -> Ite
         for pos, result in enumerate(self[0].atomization(context), start=1):
             if isinstance(result, UntypedAtomic):
                 result = result.value
-            if isinstance(result, bool) is isinstance(value, bool) and manager.eq(result, value):
+            if isinstance(result, bool) is not isinstance(value, bool):
+                continue
+            elif isinstance(result, (int, float, Decimal)) and isinstance(value, (int, float, Decimal)) \
+                    and not isinstance(value, bool):
+                if numeric_equal_promoted(result, value):
+                    yield pos
+            elif manager.eq(result, value):
                 yield pos
 
 
